@@ -279,15 +279,32 @@ def _run(cfg, tape, upto=None, state=None, pos=0, hooks=None):
     it = Interp(cfg, t, state=state, hooks=hooks)
     n = 0
     while it.state.status and (upto is None or n < upto):
+        if hooks is not None:
+            hooks.quiescent(it)
         if it.step() is None:
             break
         n += 1
+    if hooks is not None:
+        hooks.quiescent(it)
     return it
+
+
+_BOARD = ('FT', 'NT', 'NR', 'NS', 'PO', 'FO8')
 
 
 @st.composite
 def c15_case(draw):
-    case = draw(gen.cases(tape_size=100, unknown=True))
+    case = draw(st.one_of(
+        gen.cases(tape_size=100, unknown=True),
+        gen.cases(tape_size=100, unknown=True),
+        # cash-game all-ins with run-outs and several boards dealt by hand:
+        # many quiescent states between the deals of one settlement
+        gen.cases(tape_size=100, games=_BOARD, profiles=(2, 5),
+                  short_bias=True, modes=('C',), boards=(1, 2, 2, 3),
+                  mask_strategy=st.sampled_from(
+                      [2047 & ~(1 << 5) & ~(1 << 3), 2047 & ~(1 << 5), 0,
+                       2047 & ~(1 << 5) & ~(1 << 6), 2047 & ~(1 << 4)])),
+    ))
     cfg = case['config']
     if cfg.get('unknown'):
         cfg['autos'] &= ~(1 << 7)
@@ -302,6 +319,74 @@ def c15_case(draw):
 FUZZ = dict(
     thorough=dict(procs=16, runs=6000, wall=900),
 )
+
+
+class Observe(Hooks):
+    """Reads everything a user interface would read, at every quiescent
+    state: every public property and every read-only accessor for every
+    player / board / hand type.  Looking must not change what happens."""
+
+    _props = None
+
+    def __init__(self, phase=0):
+        self.calls = 0
+        self.k = phase
+
+    def quiescent(self, it):
+        # every third quiescent state (phase chosen by the case): cheap
+        # enough to run on every case, dense enough to fall between any two
+        # particular operations in a third of the cases
+        self.k += 1
+        if self.k % 3:
+            return
+        s = it.state
+        cls = type(s)
+        if Observe._props is None:
+            Observe._props = [n for n in dir(cls) if not n.startswith('_')
+                              and isinstance(getattr(cls, n), property)]
+
+        def read(f, *a):
+            self.calls += 1
+            try:
+                r = f(*a)
+                if hasattr(r, '__next__'):
+                    r = tuple(r)
+                return r
+            except (ValueError, AssertionError, IndexError, KeyError,
+                    TypeError):
+                return None
+
+        for n in Observe._props:
+            read(getattr, s, n)
+        for i in s.player_indices:
+            for f in (s.get_censored_hole_cards, s.get_down_cards,
+                      s.get_up_cards, s.can_win_now, s.get_effective_ante,
+                      s.get_effective_blind_or_straddle):
+                read(f, i)
+            if sum(s.statuses) > 1 and s.actor_index is not None:
+                read(s.get_effective_stack, i)
+        nb = read(lambda: s.board_count) or 0
+        for j in range(nb):
+            read(s.get_board_cards, j)
+            for k in s.hand_type_indices:
+                read(s.get_up_hands, j, k)
+                for i in s.player_indices:
+                    read(s.get_hand, i, j, k)
+                    read(s.get_up_hand, i, j, k)
+        read(s.get_dealable_cards)
+        read(s.get_dealable_cards, 1)
+
+
+def public_outcome(s):
+    return dict(
+        stacks=list(s.stacks), payoffs=list(s.payoffs), bets=list(s.bets),
+        statuses=list(s.statuses), status=s.status,
+        hole=[list(h) for h in s.hole_cards],
+        facing=[list(h) for h in s.hole_card_statuses],
+        board=[list(b) for b in s.board_cards],
+        burn=list(s.burn_cards), muck=list(s.mucked_cards),
+        deck=list(s.deck_cards),
+    )
 
 
 def _late_show(it, case, complete):
@@ -334,7 +419,7 @@ def _late_show(it, case, complete):
 
 def budget(tier):
     if tier == 'quick':
-        return dict(examples=2400, wall=100)
+        return dict(examples=2000, wall=110)
     return dict(examples=60000, wall=1500)
 
 
@@ -382,6 +467,44 @@ def check(case, stats):
                 if d:
                     out.append(V(ID, 'nondeterministic_state', ','.join(d),
                                  f'two runs differ in {d}'))
+            # (d) looking does not change anything: the same case with every
+            # public property and accessor read at every quiescent state
+            ob = Observe(case.get('copy_at', 0))
+            try:
+                it5 = _run(cfg, tape, hooks=ob)
+                _late_show(it5, case, None)
+            except Exception as e:  # noqa: BLE001
+                if not is_engine_exception(e):
+                    raise
+                out.append(V(ID, 'observation_changes_hand', exc_key(e),
+                             f'with read-only accessors called between'
+                             f' operations the hand fails: {e!r}'))
+                it5 = None
+            if it5 is not None:
+                if ob.calls == 0 and len(it5.steps) >= 3:
+                    from ..engine import HarnessError
+                    raise HarnessError('observation pass read nothing')
+                stats.count('read_only_calls', ob.calls)
+                if it5.state.operations != s1.operations:
+                    i = next((i for i, (x, y) in enumerate(
+                        zip(it5.state.operations, s1.operations))
+                        if x != y), min(len(it5.state.operations),
+                                        len(s1.operations)))
+                    out.append(V(
+                        ID, 'observation_changes_hand', 'log',
+                        f'reading the public properties/accessors between'
+                        f' operations changes the log at #{i}:'
+                        f' {it5.state.operations[i:i + 1]} vs'
+                        f' {s1.operations[i:i + 1]}'))
+                else:
+                    a, b = public_outcome(s1), public_outcome(it5.state)
+                    d = [k for k in a if a[k] != b[k]]
+                    if d:
+                        out.append(V(
+                            ID, 'observation_changes_hand', ','.join(d),
+                            f'reading the public properties/accessors'
+                            f' changes {d}: {[a[k] for k in d][:2]} vs'
+                            f' {[b[k] for k in d][:2]}'))
             # (a) replay on a fresh un-automated state, different shuffle
             try:
                 fresh = build_state(cfg, mask=0,
